@@ -51,7 +51,65 @@ const (
 	loopMargin   = 500 * time.Millisecond
 )
 
-var loopback4 = netip.AddrFrom4([4]byte{127, 0, 0, 1})
+var (
+	loopback4       = netip.AddrFrom4([4]byte{127, 0, 0, 1})
+	loopback4Mapped = netip.AddrFrom16(loopback4.As16()) // ::ffff:127.0.0.1
+	loopback6       = netip.IPv6Loopback()
+)
+
+var (
+	ipv6Once sync.Once
+	ipv6OK   bool
+
+	dualOnce   sync.Once
+	dualMapped bool // the repo's default UDP client socket reports IPv4 peers as ::ffff:a.b.c.d
+)
+
+// haveIPv6Loopback reports whether [::1] can be bound on this host.
+func haveIPv6Loopback() bool {
+	ipv6Once.Do(func() {
+		uc, err := net.ListenUDP("udp6", &net.UDPAddr{IP: net.IPv6loopback})
+		if err == nil {
+			uc.Close()
+			ipv6OK = true
+		}
+	})
+	return ipv6OK
+}
+
+// clientSocketReportsMapped finds out (once, by trying) in which form a socket opened the way the
+// probe opens it (conn.DefaultUDPClientListenConfig, "udp", "") reports an IPv4 loopback peer.
+func clientSocketReportsMapped() bool {
+	dualOnce.Do(func() {
+		echo, err := net.ListenUDP("udp4", &net.UDPAddr{IP: net.IPv4(127, 0, 0, 1)})
+		if err != nil {
+			return
+		}
+		defer echo.Close()
+		lc := conn.DefaultUDPClientListenConfig
+		uc, _, err := lc.ListenUDP(context.Background(), "udp", "")
+		if err != nil {
+			return
+		}
+		defer uc.Close()
+		if _, err := uc.WriteToUDPAddrPort([]byte("x"), echo.LocalAddr().(*net.UDPAddr).AddrPort()); err != nil {
+			return
+		}
+		b := make([]byte, 16)
+		echo.SetReadDeadline(time.Now().Add(2 * time.Second))
+		n, from, err := echo.ReadFromUDPAddrPort(b)
+		if err != nil {
+			return
+		}
+		echo.WriteToUDPAddrPort(b[:n], from)
+		uc.SetReadDeadline(time.Now().Add(2 * time.Second))
+		_, _, _, src, err := uc.ReadMsgUDPAddrPort(b, nil)
+		if err == nil {
+			dualMapped = src.Addr().Is4In6()
+		}
+	})
+	return dualMapped
+}
 
 type loopResponder struct {
 	uc      *net.UDPConn
@@ -60,8 +118,12 @@ type loopResponder struct {
 	arrived []atomic.Int64 // unix nanos of the k-th query
 }
 
-func newLoopResponder(script string) (*loopResponder, error) {
-	uc, err := net.ListenUDP("udp4", &net.UDPAddr{IP: net.IPv4(127, 0, 0, 1)})
+func newLoopResponder(script string, v6 bool) (*loopResponder, error) {
+	network, ip := "udp4", net.IPv4(127, 0, 0, 1)
+	if v6 {
+		network, ip = "udp6", net.IPv6loopback
+	}
+	uc, err := net.ListenUDP(network, &net.UDPAddr{IP: ip})
 	if err != nil {
 		return nil, err
 	}
@@ -161,7 +223,37 @@ type loopPlan struct {
 	Policy  string
 	Scripts []string // per configuration position, one action per round
 	Kinds   []string // per configuration position: fake | direct | ssnone | ss2022 (empty = all fake)
-	Domain  bool     // probe address given as a domain name instead of an IP
+	Addr    string   // form of the probe address: ip4 (127.0.0.1, default) | ip4mapped ([::ffff:127.0.0.1]) | ip6 ([::1]) | domain
+	Report  []string // per position: form in which a fake/relayed member reports an IPv4 payload source: plain (default) | mapped
+}
+
+func (p *loopPlan) addr() string {
+	if p.Addr == "" {
+		return "ip4"
+	}
+	return p.Addr
+}
+
+func (p *loopPlan) domain() bool { return p.addr() == "domain" }
+
+// reportsMapped tells whether member i presents the IPv4 DNS server as ::ffff:127.0.0.1. The
+// direct member has no say: its answers carry whatever the kernel socket reports.
+func (p *loopPlan) reportsMapped(i int) bool {
+	if p.kind(i) == "direct" {
+		return clientSocketReportsMapped()
+	}
+	return i < len(p.Report) && p.Report[i] == "mapped"
+}
+
+// mismatch: member i's reported source equals the probe address only modulo 4-in-6 mapping.
+func (p *loopPlan) mismatch(i int) bool {
+	switch p.addr() {
+	case "ip4":
+		return p.reportsMapped(i)
+	case "ip4mapped":
+		return !p.reportsMapped(i)
+	}
+	return false
 }
 
 func (p *loopPlan) kind(i int) string {
@@ -174,11 +266,7 @@ func (p *loopPlan) kind(i int) string {
 func relayed(kind string) bool { return kind == "ssnone" || kind == "ss2022" }
 
 func (p *loopPlan) String() string {
-	addr := "ip"
-	if p.Domain {
-		addr = "domain"
-	}
-	return fmt.Sprintf("policy=%s address=%s kinds=%v scripts=%v", p.Policy, addr, p.Kinds, p.Scripts)
+	return fmt.Sprintf("policy=%s address=%s kinds=%v report=%v scripts=%v", p.Policy, p.addr(), p.Kinds, p.Report, p.Scripts)
 }
 
 type loopStats struct {
@@ -186,6 +274,8 @@ type loopStats struct {
 	relayDomainTargets, relayIPTargets int64
 	resolverQueries                    int64
 	relayedWins                        bool // some judged round's allowed set starts with a relayed member
+	mismatchWins                       bool // ... with a member whose reported source equals the probe address only modulo 4-in-6 mapping
+	noIPv6                             bool
 }
 
 type loopSample struct {
@@ -202,8 +292,16 @@ func runLoopPlan(p *loopPlan) (viol, inconclusive string, st loopStats) {
 	posOfName := map[string]int{}
 	port := uint16(5353) // nothing listens here; only a direct member sends to the probe address itself
 	directs := 0
+	if p.addr() == "ip6" && !haveIPv6Loopback() {
+		for i := 0; i < n; i++ {
+			if p.kind(i) == "direct" {
+				st.noIPv6 = true
+				return "", "IPv6 loopback unavailable on this host", st
+			}
+		}
+	}
 	for i := 0; i < n; i++ {
-		r, err := newLoopResponder(p.Scripts[i])
+		r, err := newLoopResponder(p.Scripts[i], p.addr() == "ip6" && p.kind(i) == "direct")
 		if err != nil {
 			return "", "listen: " + err.Error(), st
 		}
@@ -218,10 +316,26 @@ func runLoopPlan(p *loopPlan) (viol, inconclusive string, st loopStats) {
 	if directs > 1 {
 		return "HARNESS: more than one direct member", "", st
 	}
-	probeAP := netip.AddrPortFrom(loopback4, port)
-	address := conn.AddrFromIPPort(probeAP)
+	probeIP := loopback4
+	switch p.addr() {
+	case "ip4mapped":
+		probeIP = loopback4Mapped
+	case "ip6":
+		probeIP = loopback6
+	}
+	address := conn.AddrFromIPPort(netip.AddrPortFrom(probeIP, port))
+	// reported(i): the payload source member i presents for answers of the DNS server
+	reported := func(i int) netip.AddrPort {
+		switch {
+		case p.addr() == "ip6":
+			return netip.AddrPortFrom(loopback6, port)
+		case p.reportsMapped(i):
+			return netip.AddrPortFrom(loopback4Mapped, port)
+		}
+		return netip.AddrPortFrom(loopback4, port)
+	}
 	ownedName := ""
-	if p.Domain {
+	if p.domain() {
 		installResolver()
 		ownedName = newOwnedName()
 		address = conn.MustAddrFromDomainPort(ownedName, port)
@@ -233,7 +347,7 @@ func runLoopPlan(p *loopPlan) (viol, inconclusive string, st loopStats) {
 		lc := conn.DefaultUDPClientListenConfig
 		switch kind := p.kind(i); kind {
 		case "fake":
-			udpMap[name] = &loopUDP{id: i, name: name, dest: resp[i].addrPort(), src: probeAP}
+			udpMap[name] = &loopUDP{id: i, name: name, dest: resp[i].addrPort(), src: reported(i)}
 		case "direct":
 			udpMap[name] = direct.NewDirectUDPClient(name, "ip4", 1500, lc)
 		case "ssnone", "ss2022":
@@ -241,7 +355,7 @@ func runLoopPlan(p *loopPlan) (viol, inconclusive string, st loopStats) {
 			for j := range psk {
 				psk[j] = byte(37*i + 11*j + 5)
 			}
-			rl, err := newLoopRelay(kind, resp[i].addrPort(), probeAP, psk, 0x5e55_0000+uint64(i))
+			rl, err := newLoopRelay(kind, resp[i].addrPort(), reported(i), psk, 0x5e55_0000+uint64(i))
 			if err != nil {
 				return "", "listen: " + err.Error(), st
 			}
@@ -331,7 +445,9 @@ func runLoopPlan(p *loopPlan) (viol, inconclusive string, st loopStats) {
 		if q == 0 {
 			// not a timing matter: this member's probes never reach its responder. The scripted outcome of
 			// every round is then "no answer", whatever the script says; the oracle below decides.
-			p = &loopPlan{Policy: p.Policy, Kinds: p.Kinds, Domain: p.Domain, Scripts: append([]string(nil), p.Scripts...)}
+			cp := *p
+			cp.Scripts = append([]string(nil), p.Scripts...)
+			p = &cp
 			p.Scripts[i] = strings.Repeat("D", R)
 			continue
 		}
@@ -436,6 +552,7 @@ func runLoopPlan(p *loopPlan) (viol, inconclusive string, st loopStats) {
 			for i, ok := range a {
 				if ok {
 					st.relayedWins = st.relayedWins || relayed(p.kind(i))
+					st.mismatchWins = st.mismatchWins || p.mismatch(i)
 					break
 				}
 			}
@@ -449,14 +566,15 @@ func runLoopPlan(p *loopPlan) (viol, inconclusive string, st loopStats) {
 
 const loopRule = "real time on loopback: UDP group (availability / latency / min-max-latency) of 2..4 members, each carrying the DNS probe to its own scripted responder " +
 	"(answer / silent / wrong-ID / SERVFAIL per round); member kinds: harness pass-through client, the repo's direct UDP client (responder listens at the probe address; at most one), " +
-	"the repo's Shadowsocks-none and Shadowsocks-2022 UDP clients talking to a harness relay that forwards to the responder and reports the DNS server (IP form) as payload source; " +
-	"probe address configured as IP or as a domain name resolved by an owned resolver; timeout 1.5 s, interval 3.5 s, 2..4 rounds; selection sampled every 25 ms and judged only inside windows " +
+	"the repo's Shadowsocks-none and Shadowsocks-2022 UDP clients talking to a harness relay that forwards to the responder and reports the DNS server (IP form, IPv4 either plain or as ::ffff:a.b.c.d) as payload source; " +
+	"probe address configured as 127.0.0.1, [::ffff:127.0.0.1], [::1] or as a domain name resolved by an owned resolver; timeout 1.5 s, interval 3.5 s, 2..4 rounds; selection sampled every 25 ms and judged only inside windows " +
 	"500 ms away from every tick/timeout edge; cases whose probe arrival times miss the harness's timing assumptions are retried once and then counted inconclusive-timing, never failed. "
 
 var recLoop = ev.New("C19", "udp-probe-loopback", loopRule+"Random plans (thorough). Non-trivial: >=3 members, a relayed member, first member not always answering; distinct key = plan").
-	Require("policy/availability", "udp-probe-via-relayed-member", "udp-probe-domain-address", "udp-probe-ip-address", "relayed-member-expected-to-win")
+	Require("policy/availability", "udp-probe-via-relayed-member", "udp-probe-domain-address", "udp-probe-ip-address", "relayed-member-expected-to-win",
+		"udp-probe-ipv4-literal", "payload-source-reported-mapped")
 
-var recLoopFixed = ev.New("C19", "udp-probe-loopback-fixed", loopRule+"Six fixed plans of 2 rounds run side by side (quick and thorough). Non-trivial: all; distinct key = plan").
+var recLoopFixed = ev.New("C19", "udp-probe-loopback-fixed", loopRule+"Twelve fixed plans of 2 rounds run side by side (quick and thorough). Non-trivial: all; distinct key = plan").
 	Require("udp-probe-via-relayed-member", "udp-probe-domain-address", "udp-probe-ip-address", "relayed-member-expected-to-win", "relayed-member-expected-to-win/domain",
 		"kind/ssnone", "kind/ss2022", "kind/direct", "domain-resolved-by-owned-resolver")
 
@@ -467,20 +585,29 @@ func runLoopPlans(rec *ev.Recorder, plans []*loopPlan, failf func(format string,
 	viols := make([]string, k)
 	incs := make([]string, k)
 	stats := make([]loopStats, k)
+	firsts := make([]string, k) // what the first attempt said, when a retry was needed
 	var wg sync.WaitGroup
 	for g, p := range plans {
 		wg.Add(1)
 		go func() {
 			defer wg.Done()
+			// staggered starts: the groups' ticks (and the burst of sockets and sessions each tick causes)
+			// do not all fall on the same instant
+			time.Sleep(time.Duration(g) * 120 * time.Millisecond)
 			viols[g], incs[g], stats[g] = runLoopPlan(p)
-			if viols[g] != "" || incs[g] != "" {
+			if (viols[g] != "" || incs[g] != "") && !stats[g].noIPv6 {
 				// a missed real-time bound is retried once before it counts
+				firsts[g] = viols[g] + incs[g]
 				viols[g], incs[g], stats[g] = runLoopPlan(p)
 			}
 		}()
 	}
 	wg.Wait()
 	for g, p := range plans {
+		if firsts[g] != "" {
+			rec.Label("retried", 1)
+			logf("retried once: %s [%v]", firsts[g], p)
+		}
 		if viols[g] != "" {
 			if sig := sigOf(viols[g]); sig != "" && ev.IsKnown("C19", sig) {
 				rec.KnownHit(sig)
@@ -488,6 +615,12 @@ func runLoopPlans(rec *ev.Recorder, plans []*loopPlan, failf func(format string,
 			}
 			failf("%s", viols[g])
 			return
+		}
+		if stats[g].noIPv6 {
+			rec.Label("ipv6-unavailable", 1)
+			rec.Label("ipv6-literal-or-unavailable", 1)
+			logf("skipped: %s [%v]", incs[g], p)
+			continue
 		}
 		if incs[g] != "" {
 			rec.Label("inconclusive-timing", 1)
@@ -511,7 +644,32 @@ func runLoopPlans(rec *ev.Recorder, plans []*loopPlan, failf func(format string,
 			labels = append(labels, "udp-probe-via-relayed-member")
 		}
 		addr := "ip"
-		if p.Domain {
+		switch p.addr() {
+		case "ip4":
+			labels = append(labels, "udp-probe-ipv4-literal")
+		case "ip4mapped":
+			labels = append(labels, "udp-probe-ipv4-mapped-literal")
+		case "ip6":
+			labels = append(labels, "udp-probe-ipv6-literal", "ipv6-literal-or-unavailable")
+		}
+		for i := 0; i < n; i++ {
+			// a member that reports the other form and answers at least once (and, if relayed, whose relay returned answers)
+			if p.mismatch(i) && strings.Contains(p.Scripts[i], "A") && (!relayed(p.kind(i)) || st.relayedReturned > 0) {
+				if p.addr() == "ip4" {
+					labels = append(labels, "payload-source-reported-mapped", "payload-source-reported-mapped/"+p.kind(i))
+				} else {
+					labels = append(labels, "payload-source-reported-plain-for-mapped-address")
+				}
+			}
+		}
+		if st.mismatchWins {
+			if p.addr() == "ip4" {
+				labels = append(labels, "healthy-mapped-member-expected-to-win", "healthy-mapped-member-expected-to-win/"+p.Policy)
+			} else {
+				labels = append(labels, "healthy-plain-member-expected-to-win-for-mapped-address")
+			}
+		}
+		if p.domain() {
 			addr = "domain"
 			labels = append(labels, "udp-probe-domain-address")
 			if st.relayDomainTargets > 0 {
@@ -532,7 +690,7 @@ func runLoopPlans(rec *ev.Recorder, plans []*loopPlan, failf func(format string,
 		}
 		rec.Case(p.String(), nt, labels...)
 		if nt {
-			rec.Sample(map[string]any{"policy": p.Policy, "address": addr, "kinds": p.Kinds, "scripts": p.Scripts,
+			rec.Sample(map[string]any{"policy": p.Policy, "address": p.addr(), "kinds": p.Kinds, "report": p.Report, "scripts": p.Scripts,
 				"relayForwarded": st.relayedForwarded, "relayReturned": st.relayedReturned, "resolverQueries": st.resolverQueries})
 		}
 	}
@@ -551,7 +709,7 @@ func TestUDPProbeLoopback(t *testing.T) {
 			n := rapid.IntRange(2, 4).Draw(rt, "n")
 			R := rapid.IntRange(2, 4).Draw(rt, "rounds")
 			p := &loopPlan{Policy: rapid.SampledFrom([]string{polAvailability, polAvailability, polLatency, polMinMax}).Draw(rt, "policy")}
-			p.Domain = rapid.Bool().Draw(rt, "domain")
+			p.Addr = rapid.SampledFrom([]string{"ip4", "ip4", "ip4mapped", "ip6", "domain", "domain"}).Draw(rt, "addr")
 			direct := false
 			for i := 0; i < n; i++ {
 				var b strings.Builder
@@ -567,6 +725,7 @@ func TestUDPProbeLoopback(t *testing.T) {
 					direct = true
 				}
 				p.Kinds = append(p.Kinds, kind)
+				p.Report = append(p.Report, rapid.SampledFrom([]string{"plain", "mapped"}).Draw(rt, "report"))
 			}
 			plans[g] = p
 		}
@@ -574,17 +733,27 @@ func TestUDPProbeLoopback(t *testing.T) {
 	})
 }
 
-// TestUDPProbeLoopbackFixed runs six fixed two-round plans side by side (about 10 s of wall clock):
+// TestUDPProbeLoopbackFixed runs twelve fixed two-round plans side by side (about 10 s of wall clock):
 // relayed members (Shadowsocks none, Shadowsocks 2022) must be recognised as healthy and chosen
 // over a dead first member, with the probe address given as IP and as a domain name.
 func TestUDPProbeLoopbackFixed(t *testing.T) {
 	plans := []*loopPlan{
-		{Policy: polAvailability, Domain: true, Kinds: []string{"fake", "ssnone", "ss2022"}, Scripts: []string{"DD", "AA", "AA"}},
-		{Policy: polAvailability, Domain: false, Kinds: []string{"ssnone", "ss2022", "fake"}, Scripts: []string{"DD", "AA", "AA"}},
-		{Policy: polLatency, Domain: true, Kinds: []string{"direct", "ss2022", "ssnone"}, Scripts: []string{"DD", "AA", "DA"}},
-		{Policy: polMinMax, Domain: true, Kinds: []string{"ss2022", "ssnone", "direct"}, Scripts: []string{"FF", "AA", "AA"}},
-		{Policy: polAvailability, Domain: true, Kinds: []string{"direct", "ssnone"}, Scripts: []string{"AA", "AA"}},
-		{Policy: polAvailability, Domain: false, Kinds: []string{"direct", "ssnone", "ss2022"}, Scripts: []string{"WD", "DA", "AA"}},
+		{Policy: polAvailability, Addr: "domain", Kinds: []string{"fake", "ssnone", "ss2022"}, Scripts: []string{"DD", "AA", "AA"}},
+		{Policy: polAvailability, Addr: "ip4", Kinds: []string{"ssnone", "ss2022", "fake"}, Scripts: []string{"DD", "AA", "AA"}},
+		{Policy: polLatency, Addr: "domain", Kinds: []string{"direct", "ss2022", "ssnone"}, Scripts: []string{"DD", "AA", "DA"}},
+		{Policy: polMinMax, Addr: "domain", Kinds: []string{"ss2022", "ssnone", "direct"}, Scripts: []string{"FF", "AA", "AA"}},
+		{Policy: polAvailability, Addr: "domain", Kinds: []string{"direct", "ssnone"}, Scripts: []string{"AA", "AA"}},
+		{Policy: polAvailability, Addr: "ip4", Kinds: []string{"direct", "ssnone", "ss2022"}, Scripts: []string{"WD", "DA", "AA"}},
+		// IPv4 literal, answers reported from ::ffff:127.0.0.1 by the healthy members (relays, pass-through, and the
+		// direct member's dual-stack socket): they must count as answering under every policy
+		{Policy: polAvailability, Addr: "ip4", Kinds: []string{"fake", "ssnone", "ss2022"}, Report: []string{"plain", "mapped", "mapped"}, Scripts: []string{"DD", "AA", "AA"}},
+		{Policy: polLatency, Addr: "ip4", Kinds: []string{"ss2022", "direct", "ssnone"}, Report: []string{"plain", "", "mapped"}, Scripts: []string{"DD", "AA", "DA"}},
+		{Policy: polMinMax, Addr: "ip4", Kinds: []string{"ssnone", "fake", "ss2022"}, Report: []string{"plain", "mapped", "mapped"}, Scripts: []string{"FF", "AA", "AA"}},
+		// the mirror: probe address given as [::ffff:127.0.0.1], answers reported from plain 127.0.0.1
+		{Policy: polAvailability, Addr: "ip4mapped", Kinds: []string{"fake", "ssnone", "ss2022"}, Report: []string{"mapped", "plain", "plain"}, Scripts: []string{"DD", "AA", "AA"}},
+		{Policy: polLatency, Addr: "ip4mapped", Kinds: []string{"ss2022", "direct", "fake"}, Report: []string{"mapped", "", "plain"}, Scripts: []string{"WD", "DA", "AA"}},
+		// IPv6 literal: the direct member talks to [::1] (skipped with a label where [::1] cannot be bound)
+		{Policy: polAvailability, Addr: "ip6", Kinds: []string{"ssnone", "direct", "ss2022"}, Scripts: []string{"DD", "AA", "AA"}},
 	}
 	runLoopPlans(recLoopFixed, plans, t.Fatalf, t.Logf)
 }
